@@ -53,7 +53,7 @@ ASSUMPTIONS = ['remove_model is only called for registered models (an unregister
                'garbage collection: the theorem is "no table keeps the key"; the collector is assumed and checked with '
                'weakref + gc.collect() on every class (extra check gc_after_remove)',
                'Python runtime semantics of the recording callables']
-THEOREMS = ['C10_invariant', 'C10_frame', 'C10_dispatch', 'C10_late_model', 'C10_late_model_names', 'C10_add_twice',
+THEOREMS = ['C10_invariant', 'C10_frame', 'C10_dispatch', 'C10_late_model', 'C10_late_model_names', 'C10_add_twice', 'C10_graph_readd_raises', 'C10_graph_readd_example',
             'C10_removed_tables', 'C10_removed', 'C10_removed_graph_key_refuted', 'C10_two_machines',
             'C10_two_machines_hsm_refuted', 'C10_example']
 
@@ -628,8 +628,10 @@ def oracle(case, obs):
                 if j not in pm and per[j] != pper[j]:
                     return 'dispatch touched the unregistered model %d' % j
         if k == 'add_model' and o[1] in pm:
-            if (models, per, ctx, queues) != (pm, pper, prev[2], prev[4]):
+            if (models, per, ctx, graphs, queues) != (pm, pper, prev[2], prev[3], prev[4]):
                 return 'add_twice: adding a registered model changed something'
+            if res != [0, 2]:
+                return 'add_twice: adding a registered model raised or returned a value (%r)' % (res,)
         if k in ('state', 'trans', 'dispatch', 'add_model', 'remove_model', 'trigger'):
             for j in removed:
                 if (k in ('add_model', 'trigger') and o[1] == j):
